@@ -13,7 +13,13 @@ Vocabulary (Model/C07.lean, Lemmas/C07.lean): `HttpCfg`, `Decoder`, `mkDecoder` 
 calls; `Client`, `getTaskRequest`, `callbackRequest`; `serverBody` = reference team server; `Event`, `emit`, `emitAll` = a
 session on the sending side; `WellFormedCfg` (valid programs without uri-append, `RoutingDisjoint`), `WellFormedClient`,
 `EventsOk`; `Inv c cl dec known` = decoder-state invariant; `expected` / `expectedTrace` = what must be yielded;
-`MsgWireOk` = the hypotheses of C16's round trips for a message object. -/
+`MsgWireOk` = the hypotheses of C16's round trips for a message object; `WireCfg` / `WireClient` = configuration-level
+hypotheses implying them (token verbs, clean paths, printable placements via `progWireOk` / `cleanOut`).
+
+Status: `session_decodes` is the full-strength history theorem on raw bytes (`wireOf` = C16's rendering);
+`session_decodes_partial` (message objects) and `session_decodes_wire` (raw bytes under `MsgWireOk`) are the steps towards
+it.  NOT proved, only checked by the correspondence on every captured message: that the bytes httpx/h11 really write
+(space as `+` in the query, default headers added, method upper-cased) parse back to the request the client built. -/
 namespace C07
 open C04 (Step Enc Term Field Req Http C2Data Dict)
 open C04.Ref (Program valid usesUri built compile normalise serverSteps)
